@@ -1023,6 +1023,11 @@ class Engine:
       return z3.Not(r) if is_sym(r) else not r
     if isinstance(a, SymSet) or isinstance(b, SymSet):
       raise Unsupported('set comparison')
+    if isinstance(a, SymSeq) or isinstance(b, SymSeq):
+      h = self.libspec.get(('compare', 'SymSeq', type(op).__name__))
+      if h:
+        return h[1](self, a, b)
+      raise Unsupported('comparison of symbolic sequences')
     if not is_sym(a) and not is_sym(b):
       if isinstance(a, (SymSeq, Closure, SymCallable)) or isinstance(b, (SymSeq, Closure, SymCallable)):
         raise Unsupported('comparison of abstract objects')
@@ -1085,12 +1090,12 @@ class Engine:
         fb = getattr(b, f) if isinstance(b, Struct) else b
         setattr(out, f, self.binop(op, fa, fb))
       return out
+    if isinstance(a, SymSeq) or isinstance(b, SymSeq):
+      h = self.libspec.get(('binop', 'SymSeq', t.__name__))
+      if h:
+        return h[1](self, a, b)
+      raise Unsupported('arithmetic on symbolic sequences')
     if not is_sym(a) and not is_sym(b):
-      if isinstance(a, SymSeq) or isinstance(b, SymSeq):
-        h = self.libspec.get(('binop', 'SymSeq', t.__name__))
-        if h:
-          return h[1](self, a, b)
-        raise Unsupported('arithmetic on symbolic sequences')
       if isinstance(a, float) or isinstance(b, float):
         # keep float arithmetic exact (A1: floats are mathematical reals)
         if isinstance(a, (int, float, fractions.Fraction)) and isinstance(b, (int, float, fractions.Fraction)) \
